@@ -134,10 +134,38 @@ def simulate(cfg: CFG, env: Callable[[ast.expr], Optional[bool]], start: Optiona
             outcomes.append(Outcome("raise", trail[-2] if len(trail) > 1 else None, trail))
             return
         succ = cfg.succ[node.id]
+        # locals set to None on this path (a refused-fetch marker, a not-found default): `x is None` is decided by them
+        if node.kind != "test" and node.ast is not None and not isinstance(node.ast, ast.expr):
+            stored: Set[str] = set()
+            if isinstance(node.ast, (ast.Assign, ast.AnnAssign, ast.AugAssign, ast.Delete, ast.Expr, ast.Return)):
+                stored = {n.id for n in ast.walk(node.ast) if isinstance(n, ast.Name) and isinstance(n.ctx, (ast.Store, ast.Del))}
+            elif isinstance(node.ast, (ast.With, ast.AsyncWith)):
+                stored = {n.id for it in node.ast.items if it.optional_vars is not None for n in ast.walk(it.optional_vars) if isinstance(n, ast.Name)}
+            elif isinstance(node.ast, ast.ExceptHandler) and node.ast.name:
+                stored = {node.ast.name}
+            if stored:
+                seen = {k: v for k, v in seen.items() if not (isinstance(k, tuple) and k[0] == "none" and k[1] in stored)}
+                st_ = node.ast
+                if isinstance(st_, ast.Assign) and len(st_.targets) == 1 and isinstance(st_.targets[0], ast.Name) and isinstance(st_.value, ast.Constant) and st_.value.value is None:
+                    seen[("none", st_.targets[0].id)] = True
+        elif node.kind in ("iter",) and node.ast is not None:
+            stored = {n.id for n in ast.walk(getattr(node.ast, "target", node.ast)) if isinstance(n, ast.Name) and isinstance(n.ctx, ast.Store)}
+            if stored:
+                seen = {k: v for k, v in seen.items() if not (isinstance(k, tuple) and k[0] == "none" and k[1] in stored)}
         if node.kind == "test":
-            val = eval3(node.ast, env)  # type: ignore[arg-type]
-            if val is None and expand is not None:
-                val = eval3(expand(node.ast), env)  # type: ignore[arg-type]
+            nones = {k[1] for k in seen if isinstance(k, tuple) and k[0] == "none"}
+
+            def env_n(expr: ast.expr, _env=env, _nones=nones) -> Optional[bool]:
+                if _nones and isinstance(expr, ast.Compare) and len(expr.ops) == 1 and isinstance(expr.left, ast.Name) and expr.left.id in _nones and isinstance(expr.comparators[0], ast.Constant) and expr.comparators[0].value is None:
+                    if isinstance(expr.ops[0], (ast.Is, ast.Eq)):
+                        return True
+                    if isinstance(expr.ops[0], (ast.IsNot, ast.NotEq)):
+                        return False
+                return _env(expr)
+
+            val = eval3(node.ast, env_n)  # type: ignore[arg-type]
+            if val is None and expand is not None and not nones:
+                val = eval3(expand(node.ast), env_n)  # type: ignore[arg-type]
             for nxt, label in succ:
                 if val is None or label == val:
                     walk(cfg.nodes[nxt], trail, seen)
